@@ -91,7 +91,57 @@ for _child, _parent in [('key', 'abstracttype'), ('section', 'key'), ('default',
     _close = [E(x[1]) for x in reversed(_par) if x[0] == 's' and not any(y == ('e', x[1]) for y in _par)]
     DOCS_Q.append([S('schema')] + _par + _inner + _close + [E('schema')])
 
-DOCS_T = DOCS_Q + [
+DOCS_Q += [
+    # inherited attribute names differ from the key names (explicit attribute, hyphen, wildcard,
+    # anonymous section): a derived type must not re-use them
+    [S('schema'), S('sectiontype', name='tz'), E('sectiontype'),
+     S('sectiontype', name='ta'), S('key', name='kx', attribute='ab'), E('key'),
+     S('key', name='k-y'), E('key'), S('multikey', name='+', attribute='mm'), E('multikey'),
+     S('section', type='tz', name='*', attribute='sz'), E('section'), E('sectiontype'),
+     S('sectiontype', name='tb', extends='ta'),
+     S('key', name=H(2, 'k1'), attribute=H(2, 'a1')), E('key'), E('sectiontype'), E('schema')],
+    [S('schema'), S('sectiontype', name='tz'), E('sectiontype'),
+     S('sectiontype', name='ta'), S('key', name='kx', attribute='ab'), E('key'),
+     S('key', name='k-y'), E('key'), S('multikey', name='+', attribute='mm'), E('multikey'),
+     S('section', type='tz', name='*', attribute='sz'), E('section'), E('sectiontype'),
+     S('sectiontype', name='tb', extends='ta'), E('sectiontype'),
+     S('sectiontype', name='tc', extends='tb'),
+     S('multisection', type='tz', name='*', attribute=H(2, 'a1')), E('multisection'),
+     S('key', name=CAT('k', H(1, 'k1'), 'y')), E('key'), E('sectiontype'), E('schema')],
+]
+
+
+def variants(docs):
+    """for every document and every symbolic attribute value: the same document with that value
+    empty, and with the attribute left out"""
+    out = []
+    for doc in docs:
+        holes = []
+        for ei, ev in enumerate(doc):
+            if ev[0] == 's':
+                for k, v in ev[2].items():
+                    if isinstance(v, list) and v[0] == 'h':
+                        holes.append((ei, k))
+        for ei, k in holes:
+            for mode in ('empty', 'absent'):
+                new = []
+                for ej, ev in enumerate(doc):
+                    if ej == ei:
+                        a = dict(ev[2])
+                        if mode == 'empty':
+                            a[k] = ''
+                        else:
+                            del a[k]
+                        new.append(('s', ev[1], a))
+                    else:
+                        new.append(ev)
+                out.append(new)
+    return out
+
+
+DOCS_V = variants(DOCS_Q)
+
+DOCS_T = DOCS_Q + DOCS_V + [
     [S('schema'), S('sectiontype', name=H(2, 't1')), S('key', name=H(2, 'k1')), E('key'), E('sectiontype'),
      S('sectiontype', name=H(2, 't2'), extends=H(2, 'e1')), S('key', name=H(2, 'k2')), E('key'), E('sectiontype'),
      E('schema')],
@@ -130,13 +180,13 @@ class C10(Harness):
 
     @property
     def bounds(self):
-        return {'quick': {'documents': len(DOCS_Q)}, 'thorough': {'documents': len(DOCS_T)}}
+        return {'quick': {'documents': len(DOCS_Q) + len(DOCS_V)}, 'thorough': {'documents': len(DOCS_T)}}
 
     def budget(self, tier):
         return 170 if tier == 'quick' else 1200
 
     def units(self, tier):
-        return [{'doc': i} for i in range(len(DOCS_Q if tier == 'quick' else DOCS_T))]
+        return [{'doc': i} for i in range(len(DOCS_Q) + len(DOCS_V) if tier == 'quick' else len(DOCS_T))]
 
     def _doc(self, unit):
         return DOCS_T[unit['doc']]
